@@ -1401,6 +1401,9 @@ package ion
 
 //@ func (*textReader).StepOut
 //@ requires txInv(t) && txCtxOK(t)
+//@ counts (*tokenizer).FinishValue
+//@ atcall[C08] (*tokenizer).SkipContainerContents vcCalls("(*tokenizer).FinishValue") == 1
+//@ ensures[C08] err == nil ==> vcCalls("(*tokenizer).FinishValue") == 1
 //@ ensures[C06,C08] txCtxOK(t)
 //@ modifies t.err, t.state, t.eof, t.ctx.arr, t.fieldName, t.annotations, t.valueType, t.value, t.tok.token, t.tok.unfinished, t.tok.pos, t.tok.buffer, vcStreamOf(t.tok.in).cur
 //@ ensures[C07,C08] old(t.err) != nil ==> err == old(t.err) && t.state == old(t.state) && len(t.ctx.arr) == old(len(t.ctx.arr))
